@@ -58,6 +58,7 @@ type Obligation struct {
 	// terms whose model values are wanted on failure: label -> smt term
 	Watch map[string]string
 	// results
+	Hubs    []string // symbolic constants of the function's inputs (do not propagate relevance when slicing)
 	Status  string // "unsat","sat","unknown","timeout","error"
 	Backend string
 	Seconds float64
@@ -162,6 +163,9 @@ func (c *FnCtx) oblige(st *State, kind, detail string, p token.Pos, goal string,
 	o.Watch = map[string]string{}
 	for k, v := range c.watch {
 		o.Watch[k] = v
+	}
+	for _, t := range c.env {
+		o.Hubs = append(o.Hubs, symRE.FindAllString(t.S, -1)...)
 	}
 	*c.obls = append(*c.obls, o)
 }
